@@ -382,162 +382,6 @@ Proof.
     destruct (cnt_pos_ex isDead (thr st) ltac:(lia)) as (i & t & Hi & Ht). destruct t; try discriminate. exists i. exact Hi.
 Qed.
 
-(* ---------- C09: covering invariant ---------- *)
-Section Covering.
-Variables (target : Type) (value : target -> Z) (covers : node -> target -> Prop).
-Hypothesis cov_root : forall t, covers root t.
-Hypothesis cov_nosol : forall n t, f n = NoSol -> ~ covers n t.
-Hypothesis cov_feas : forall n x s t, f n = Feas x s -> covers n t -> value t <= s.
-Hypothesis cov_branch : forall n cs s t, f n = Infeas cs s -> covers n t -> value t <= s /\ exists c, In c cs /\ covers c t.
-Hypothesis val_le : forall t, value t <= smax.
-Hypothesis no_panic : forall n, f n <> PanicR.
-
-Definition CovT (st : state) (t : target) : Prop :=
-   (best st <> None /\ value t <= bscore st) \/
-   (exists n ps, In (n, ps) (pend st) /\ covers n t /\ value t <= ps) \/
-   (exists i n, T st i = Some (Solving n) /\ covers n t).
-Definition CovInv (st : state) : Prop := forall t, CovT st t.
-
-Lemma T_upd_other st i v j t : T st j = Some t -> i <> j -> nth_error (upd (thr st) i v) j = Some t.
-Proof. intros H Hne. rewrite nth_error_upd_neq by auto. exact H. Qed.
-
-(* generic: a step that changes only thr at a position whose old status is not Solving, and keeps pend/best/bscore *)
-Lemma cov_keep st st' i told : CovInv st -> T st i = Some told -> isSolving told = false ->
-  pend st' = pend st -> best st' = best st -> bscore st' = bscore st ->
-  (forall j n, j <> i -> T st j = Some (Solving n) -> T st' j = Some (Solving n)) -> CovInv st'.
-Proof.
-  intros Hc Hi Hs Ep Eb Es Hthr. intros t.
-  destruct (Hc t) as [H|[H|(j & n & Hj & Hcov)]].
-  - left. rewrite Eb, Es. exact H.
-  - right. left. rewrite Ep. exact H.
-  - right. right. exists j, n. split; [|exact Hcov]. apply Hthr; [|exact Hj].
-    intros ->. rewrite Hi in Hj. inversion Hj; subst. discriminate.
-Qed.
-
-Lemma cov_step b st st' : CovInv st -> Step b st st' -> CovInv st'.
-Proof.
-  intros C S. destruct S.
-  - eapply (cov_keep st _ i Ready C); eauto. intros j n Hne Hj. unfold T; cbn. apply T_upd_other; auto.
-  - (* PopSolve *)
-    intros t. destruct (C t) as [Hx|[(n' & ps' & Hin & Hcov & Hv)|(j & n' & Hj & Hcov)]].
-    + left. exact Hx.
-    + rewrite H1 in Hin. apply in_app_or in Hin. destruct Hin as [Hin|[Heq|Hin]].
-      * right. left. exists n', ps'. cbn. split; [apply in_or_app; left; exact Hin|auto].
-      * inversion Heq; subst. right. right. exists i, n'. unfold T; cbn. split; [|exact Hcov].
-        apply nth_error_upd_eq. eapply nth_error_lt; eauto.
-      * right. left. exists n', ps'. cbn. split; [apply in_or_app; right; exact Hin|auto].
-    + right. right. exists j, n'. unfold T; cbn. split; [|exact Hcov]. apply T_upd_other; auto.
-      intros ->. unfold T in *. rewrite H0 in Hj. discriminate.
-  - (* PopBound *)
-    intros t. destruct (C t) as [Hx|[(n' & ps' & Hin & Hcov & Hv)|(j & n' & Hj & Hcov)]].
-    + left. exact Hx.
-    + rewrite H1 in Hin. apply in_app_or in Hin. destruct Hin as [Hin|[Heq|Hin]].
-      * right. left. exists n', ps'. cbn. split; [apply in_or_app; left; exact Hin|auto].
-      * inversion Heq; subst. left. cbn. split; [assumption|lia].
-      * right. left. exists n', ps'. cbn. split; [apply in_or_app; right; exact Hin|auto].
-    + right. right. exists j, n'. unfold T; cbn. split; [|exact Hcov]. apply T_upd_other; auto.
-      intros ->. unfold T in *. rewrite H0 in Hj. discriminate.
-  - (* ExitYes *)
-    eapply (cov_keep st _ i AfterItem C); eauto. intros j n Hne Hj. unfold T in *; cbn.
-    rewrite nth_error_upd_neq by auto. rewrite nth_error_wake_all, Hj. reflexivity.
-  - eapply (cov_keep st _ i AfterItem C); eauto. intros j n Hne Hj. unfold T; cbn. apply T_upd_other; auto.
-  - eapply (cov_keep st _ i Looping C); eauto. intros j n Hne Hj. unfold T; cbn. apply T_upd_other; auto.
-  - eapply (cov_keep st _ i Looping C); eauto. intros j n Hne Hj. unfold T; cbn. apply T_upd_other; auto.
-  - (* FinishNo *)
-    intros t. destruct (C t) as [Hx|[Hx|(j & n' & Hj & Hcov)]].
-    + left. exact Hx.
-    + right. left. exact Hx.
-    + destruct (Nat.eq_dec j i) as [->|Hne].
-      * unfold T in *. rewrite H0 in Hj. inversion Hj; subst. exfalso. eapply cov_nosol; eauto.
-      * right. right. exists j, n'. unfold T; cbn. split; [|exact Hcov]. apply T_upd_other; auto.
-  - (* FinishFeas *)
-    assert (G : forall t, CovT st t -> (* same witnesses except thread i *)
-              (best st <> None /\ value t <= bscore st) \/ (exists n' ps, In (n', ps) (pend st) /\ covers n' t /\ value t <= ps) \/
-              (exists j n', j <> i /\ T st j = Some (Solving n') /\ covers n' t) \/ covers n t).
-    { intros t [Hx|[Hx|(j & n' & Hj & Hcov)]]; auto. destruct (Nat.eq_dec j i) as [->|Hne].
-      - unfold T in *. rewrite H0 in Hj. inversion Hj; subst. auto.
-      - right. right. left. exists j, n'. auto. }
-    unfold newbest. destruct (best st) as [x0|] eqn:Eb; [destruct (bscore st <? s) eqn:E; [apply Z.ltb_lt in E|apply Z.ltb_ge in E]|].
-    + intros t. destruct (G t (C t)) as [[Hx Hv]|[Hx|[(j & n' & Hne & Hj & Hcov)|Hcov]]].
-      * left. cbn. split; [discriminate|lia].
-      * right. left. exact Hx.
-      * right. right. exists j, n'. unfold T; cbn. split; [|exact Hcov]. apply T_upd_other; auto.
-      * left. cbn. split; [discriminate|]. eapply cov_feas; eauto.
-    + intros t. destruct (G t (C t)) as [Hx|[Hx|[(j & n' & Hne & Hj & Hcov)|Hcov]]].
-      * left. cbn. rewrite Eb. exact Hx.
-      * right. left. exact Hx.
-      * right. right. exists j, n'. unfold T; cbn. split; [|exact Hcov]. apply T_upd_other; auto.
-      * left. cbn. rewrite Eb. pose proof (cov_feas _ _ _ _ H1 Hcov). split; [discriminate|lia].
-    + intros t. destruct (G t (C t)) as [[Hx Hv]|[Hx|[(j & n' & Hne & Hj & Hcov)|Hcov]]].
-      * exfalso. apply Hx. reflexivity.
-      * right. left. exact Hx.
-      * right. right. exists j, n'. unfold T; cbn. split; [|exact Hcov]. apply T_upd_other; auto.
-      * left. cbn. split; [discriminate|]. eapply cov_feas; eauto.
-  - (* FinishInf *)
-    intros t. destruct (C t) as [Hx|[(n' & ps' & Hin & Hcov & Hv)|(j & n' & Hj & Hcov)]].
-    + left. exact Hx.
-    + right. left. exists n', ps'. cbn. split; [apply in_or_app; left; exact Hin|auto].
-    + destruct (Nat.eq_dec j i) as [->|Hne].
-      * unfold T in *. rewrite H0 in Hj. inversion Hj; subst. destruct (cov_branch _ _ _ _ H1 Hcov) as (Hv & c & Hc' & Hcc).
-        right. left. exists c, s. cbn. split; [apply in_or_app; right; apply in_map_iff; exists c; auto|auto].
-      * right. right. exists j, n'. unfold T; cbn. split; [|exact Hcov]. apply T_upd_other; auto.
-  - exfalso. eapply no_panic; eauto.
-  - eapply (cov_keep st _ i Waiting C); eauto. intros j n Hne Hj. unfold T; cbn. apply T_upd_other; auto.
-Qed.
-
-Lemma cov_init k : CovInv (init k).
-Proof.
-  intros t. right. left. exists root, smax. cbn. split; [left; reflexivity|]. split; [apply cov_root|apply val_le].
-Qed.
-
-Theorem engine_complete k st : Reach k st -> (0 < k)%nat -> (forall i t, T st i = Some t -> t = Done) ->
-  forall t, best st <> None /\ value t <= bscore st.
-Proof.
-  intros R Hk Hall t.
-  assert (C : CovInv st) by (clear Hall; induction R; [apply cov_init|eapply cov_step; eauto]).
-  assert (Hex : exists i, T st i = Some Done).
-  { pose proof (thr_length k st R) as Hl. destruct (thr st) as [|t0 l] eqn:E; [simpl in Hl; lia|]. exists 0%nat.
-    rewrite <- (Hall 0%nat t0); unfold T; rewrite E; reflexivity. }
-  destruct (final_accounting k st R (fun i t Ht => or_introl (Hall i t Ht)) Hex) as (Hp & _).
-  destruct (C t) as [H|[(n & ps & Hin & _)|(i & n & Hi & _)]].
-  - exact H.
-  - rewrite Hp in Hin. destruct Hin.
-  - specialize (Hall i _ Hi). discriminate.
-Qed.
-End Covering.
-
-(* best is always the output of a solved feasible node, with its score; and dominates all solved feasible scores *)
-Definition BestInv (st : state) : Prop :=
-  (forall x, best st = Some x -> exists n, In n (solved st) /\ f n = Feas x (bscore st)) /\
-  (forall n x s, In n (solved st) -> f n = Feas x s -> best st <> None /\ s <= bscore st).
-Lemma best_step b st st' : BestInv st -> Step b st st' -> BestInv st'.
-Proof.
-  intros (B1 & B2) S. destruct S; try (split; cbn; assumption).
-  - (* FinishNo *) split; cbn; auto.
-    + intros x Hx. destruct (B1 x Hx) as (n' & Hin & Hf). exists n'. split; [right; exact Hin|exact Hf].
-    + intros n' x s [->|Hin] Hf; [congruence|eauto].
-  - (* FinishFeas *)
-    unfold newbest. destruct (best st) as [x0|] eqn:Eb; [destruct (bscore st <? s) eqn:E; [apply Z.ltb_lt in E|apply Z.ltb_ge in E]|]; split; cbn.
-    + intros x' Hx'. inversion Hx'; subst. exists n. split; [left; reflexivity|exact H1].
-    + intros n' x' s' [->|Hin] Hf.
-      * rewrite H1 in Hf. inversion Hf; subst. split; [discriminate|lia].
-      * destruct (B2 _ _ _ Hin Hf). split; [discriminate|lia].
-    + rewrite Eb. intros x' Hx'. destruct (B1 x' Hx') as (n' & Hin & Hf). exists n'. split; [right; exact Hin|exact Hf].
-    + rewrite Eb. intros n' x' s' [->|Hin] Hf; [|eauto].
-      rewrite H1 in Hf. inversion Hf; subst. split; [discriminate|lia].
-    + intros x' Hx'. inversion Hx'; subst. exists n. split; [left; reflexivity|exact H1].
-    + intros n' x' s' [->|Hin] Hf.
-      * rewrite H1 in Hf. inversion Hf; subst. split; [discriminate|lia].
-      * destruct (B2 _ _ _ Hin Hf) as [Hne _]. exfalso. apply Hne. reflexivity.
-  - (* FinishInf *) split; cbn; auto.
-    + intros x Hx. destruct (B1 x Hx) as (n' & Hin & Hf). exists n'. split; [right; exact Hin|exact Hf].
-    + intros n' x s' [->|Hin] Hf; [congruence|eauto].
-Qed.
-Lemma best_init k : BestInv (init k).
-Proof. split; cbn; [discriminate|intros n x s []]. Qed.
-Theorem reach_best k st : Reach k st -> BestInv st.
-Proof. induction 1; [apply best_init|eapply best_step; eauto]. Qed.
-
 (* every generated node satisfies any predicate that holds of the root and is inherited by the children of solved nodes *)
 Section NodeInv.
 Variable P : node -> Prop.
@@ -614,6 +458,171 @@ Proof.
   - intros i n Hi. exfalso. revert i Hi. induction k as [|k' IH]; intros [|i] Hi; cbn in Hi; try discriminate. eauto.
 Qed.
 End NodeInv.
+
+(* ---------- C09: covering invariant ---------- *)
+Section Covering.
+Variables (target : Type) (value : target -> Z) (covers : node -> target -> Prop).
+(* P: any property of subproblems that holds of the root and is inherited by the children of solved nodes (e.g. well-formedness);
+   the covering hypotheses are only needed for such nodes *)
+Variable P : node -> Prop.
+Hypothesis P_root : P root.
+Hypothesis P_child : forall n cs s c, P n -> f n = Infeas cs s -> In c cs -> P c.
+Hypothesis cov_root : forall t, covers root t.
+Hypothesis cov_nosol : forall n t, P n -> f n = NoSol -> ~ covers n t.
+Hypothesis cov_feas : forall n x s t, P n -> f n = Feas x s -> covers n t -> value t <= s.
+Hypothesis cov_branch : forall n cs s t, P n -> f n = Infeas cs s -> covers n t -> value t <= s /\ exists c, In c cs /\ covers c t.
+Hypothesis val_le : forall t, value t <= smax.
+Hypothesis no_panic : forall n, P n -> f n <> PanicR.
+
+Definition CovT (st : state) (t : target) : Prop :=
+   (best st <> None /\ value t <= bscore st) \/
+   (exists n ps, In (n, ps) (pend st) /\ covers n t /\ value t <= ps) \/
+   (exists i n, T st i = Some (Solving n) /\ covers n t).
+Definition CovInv (st : state) : Prop := forall t, CovT st t.
+
+Lemma T_upd_other st i v j t : T st j = Some t -> i <> j -> nth_error (upd (thr st) i v) j = Some t.
+Proof. intros H Hne. rewrite nth_error_upd_neq by auto. exact H. Qed.
+
+(* generic: a step that changes only thr at a position whose old status is not Solving, and keeps pend/best/bscore *)
+Lemma cov_keep st st' i told : CovInv st -> T st i = Some told -> isSolving told = false ->
+  pend st' = pend st -> best st' = best st -> bscore st' = bscore st ->
+  (forall j n, j <> i -> T st j = Some (Solving n) -> T st' j = Some (Solving n)) -> CovInv st'.
+Proof.
+  intros Hc Hi Hs Ep Eb Es Hthr. intros t.
+  destruct (Hc t) as [H|[H|(j & n & Hj & Hcov)]].
+  - left. rewrite Eb, Es. exact H.
+  - right. left. rewrite Ep. exact H.
+  - right. right. exists j, n. split; [|exact Hcov]. apply Hthr; [|exact Hj].
+    intros ->. rewrite Hi in Hj. inversion Hj; subst. discriminate.
+Qed.
+
+Lemma cov_step b st st' : CovInv st -> GenInv P st -> Step b st st' -> CovInv st'.
+Proof.
+  intros C (_ & _ & GS & _) S. destruct S.
+  - eapply (cov_keep st _ i Ready C); eauto. intros j n Hne Hj. unfold T; cbn. apply T_upd_other; auto.
+  - (* PopSolve *)
+    intros t. destruct (C t) as [Hx|[(n' & ps' & Hin & Hcov & Hv)|(j & n' & Hj & Hcov)]].
+    + left. exact Hx.
+    + rewrite H1 in Hin. apply in_app_or in Hin. destruct Hin as [Hin|[Heq|Hin]].
+      * right. left. exists n', ps'. cbn. split; [apply in_or_app; left; exact Hin|auto].
+      * inversion Heq; subst. right. right. exists i, n'. unfold T; cbn. split; [|exact Hcov].
+        apply nth_error_upd_eq. eapply nth_error_lt; eauto.
+      * right. left. exists n', ps'. cbn. split; [apply in_or_app; right; exact Hin|auto].
+    + right. right. exists j, n'. unfold T; cbn. split; [|exact Hcov]. apply T_upd_other; auto.
+      intros ->. unfold T in *. rewrite H0 in Hj. discriminate.
+  - (* PopBound *)
+    intros t. destruct (C t) as [Hx|[(n' & ps' & Hin & Hcov & Hv)|(j & n' & Hj & Hcov)]].
+    + left. exact Hx.
+    + rewrite H1 in Hin. apply in_app_or in Hin. destruct Hin as [Hin|[Heq|Hin]].
+      * right. left. exists n', ps'. cbn. split; [apply in_or_app; left; exact Hin|auto].
+      * inversion Heq; subst. left. cbn. split; [assumption|lia].
+      * right. left. exists n', ps'. cbn. split; [apply in_or_app; right; exact Hin|auto].
+    + right. right. exists j, n'. unfold T; cbn. split; [|exact Hcov]. apply T_upd_other; auto.
+      intros ->. unfold T in *. rewrite H0 in Hj. discriminate.
+  - (* ExitYes *)
+    eapply (cov_keep st _ i AfterItem C); eauto. intros j n Hne Hj. unfold T in *; cbn.
+    rewrite nth_error_upd_neq by auto. rewrite nth_error_wake_all, Hj. reflexivity.
+  - eapply (cov_keep st _ i AfterItem C); eauto. intros j n Hne Hj. unfold T; cbn. apply T_upd_other; auto.
+  - eapply (cov_keep st _ i Looping C); eauto. intros j n Hne Hj. unfold T; cbn. apply T_upd_other; auto.
+  - eapply (cov_keep st _ i Looping C); eauto. intros j n Hne Hj. unfold T; cbn. apply T_upd_other; auto.
+  - (* FinishNo *)
+    intros t. destruct (C t) as [Hx|[Hx|(j & n' & Hj & Hcov)]].
+    + left. exact Hx.
+    + right. left. exact Hx.
+    + destruct (Nat.eq_dec j i) as [->|Hne].
+      * unfold T in *. rewrite H0 in Hj. inversion Hj; subst. exfalso. assert (Pn : P n') by (eapply GS; eauto). exact (cov_nosol _ _ Pn H1 Hcov).
+      * right. right. exists j, n'. unfold T; cbn. split; [|exact Hcov]. apply T_upd_other; auto.
+  - (* FinishFeas *)
+    assert (Pn : P n) by (eapply GS; eauto).
+    assert (G : forall t, CovT st t -> (* same witnesses except thread i *)
+              (best st <> None /\ value t <= bscore st) \/ (exists n' ps, In (n', ps) (pend st) /\ covers n' t /\ value t <= ps) \/
+              (exists j n', j <> i /\ T st j = Some (Solving n') /\ covers n' t) \/ covers n t).
+    { intros t [Hx|[Hx|(j & n' & Hj & Hcov)]]; auto. destruct (Nat.eq_dec j i) as [->|Hne].
+      - unfold T in *. rewrite H0 in Hj. inversion Hj; subst. auto.
+      - right. right. left. exists j, n'. auto. }
+    unfold newbest. destruct (best st) as [x0|] eqn:Eb; [destruct (bscore st <? s) eqn:E; [apply Z.ltb_lt in E|apply Z.ltb_ge in E]|].
+    + intros t. destruct (G t (C t)) as [[Hx Hv]|[Hx|[(j & n' & Hne & Hj & Hcov)|Hcov]]].
+      * left. cbn. split; [discriminate|lia].
+      * right. left. exact Hx.
+      * right. right. exists j, n'. unfold T; cbn. split; [|exact Hcov]. apply T_upd_other; auto.
+      * left. cbn. split; [discriminate|]. eapply cov_feas; eauto.
+    + intros t. destruct (G t (C t)) as [Hx|[Hx|[(j & n' & Hne & Hj & Hcov)|Hcov]]].
+      * left. cbn. rewrite Eb. exact Hx.
+      * right. left. exact Hx.
+      * right. right. exists j, n'. unfold T; cbn. split; [|exact Hcov]. apply T_upd_other; auto.
+      * left. cbn. rewrite Eb. pose proof (cov_feas _ _ _ _ Pn H1 Hcov). split; [discriminate|lia].
+    + intros t. destruct (G t (C t)) as [[Hx Hv]|[Hx|[(j & n' & Hne & Hj & Hcov)|Hcov]]].
+      * exfalso. apply Hx. reflexivity.
+      * right. left. exact Hx.
+      * right. right. exists j, n'. unfold T; cbn. split; [|exact Hcov]. apply T_upd_other; auto.
+      * left. cbn. split; [discriminate|]. eapply cov_feas; eauto.
+  - (* FinishInf *)
+    intros t. destruct (C t) as [Hx|[(n' & ps' & Hin & Hcov & Hv)|(j & n' & Hj & Hcov)]].
+    + left. exact Hx.
+    + right. left. exists n', ps'. cbn. split; [apply in_or_app; left; exact Hin|auto].
+    + destruct (Nat.eq_dec j i) as [->|Hne].
+      * unfold T in *. rewrite H0 in Hj. inversion Hj; subst. assert (Pn : P n') by (eapply GS; eauto).
+        destruct (cov_branch _ _ _ _ Pn H1 Hcov) as (Hv & c & Hc' & Hcc).
+        right. left. exists c, s. cbn. split; [apply in_or_app; right; apply in_map_iff; exists c; auto|auto].
+      * right. right. exists j, n'. unfold T; cbn. split; [|exact Hcov]. apply T_upd_other; auto.
+  - exfalso. eapply no_panic; [eapply GS|]; eauto.
+  - eapply (cov_keep st _ i Waiting C); eauto. intros j n Hne Hj. unfold T; cbn. apply T_upd_other; auto.
+Qed.
+
+Lemma cov_init k : CovInv (init k).
+Proof.
+  intros t. right. left. exists root, smax. cbn. split; [left; reflexivity|]. split; [apply cov_root|apply val_le].
+Qed.
+
+Theorem engine_complete k st : Reach k st -> (0 < k)%nat -> (forall i t, T st i = Some t -> t = Done) ->
+  forall t, best st <> None /\ value t <= bscore st.
+Proof.
+  intros R Hk Hall t.
+  assert (C : CovInv st).
+  { clear Hall. induction R; [apply cov_init|]. eapply cov_step; eauto. eapply reach_gen; eauto. }
+  assert (Hex : exists i, T st i = Some Done).
+  { pose proof (thr_length k st R) as Hl. destruct (thr st) as [|t0 l] eqn:E; [simpl in Hl; lia|]. exists 0%nat.
+    rewrite <- (Hall 0%nat t0); unfold T; rewrite E; reflexivity. }
+  destruct (final_accounting k st R (fun i t Ht => or_introl (Hall i t Ht)) Hex) as (Hp & _).
+  destruct (C t) as [H|[(n & ps & Hin & _)|(i & n & Hi & _)]].
+  - exact H.
+  - rewrite Hp in Hin. destruct Hin.
+  - specialize (Hall i _ Hi). discriminate.
+Qed.
+End Covering.
+
+(* best is always the output of a solved feasible node, with its score; and dominates all solved feasible scores *)
+Definition BestInv (st : state) : Prop :=
+  (forall x, best st = Some x -> exists n, In n (solved st) /\ f n = Feas x (bscore st)) /\
+  (forall n x s, In n (solved st) -> f n = Feas x s -> best st <> None /\ s <= bscore st).
+Lemma best_step b st st' : BestInv st -> Step b st st' -> BestInv st'.
+Proof.
+  intros (B1 & B2) S. destruct S; try (split; cbn; assumption).
+  - (* FinishNo *) split; cbn; auto.
+    + intros x Hx. destruct (B1 x Hx) as (n' & Hin & Hf). exists n'. split; [right; exact Hin|exact Hf].
+    + intros n' x s [->|Hin] Hf; [congruence|eauto].
+  - (* FinishFeas *)
+    unfold newbest. destruct (best st) as [x0|] eqn:Eb; [destruct (bscore st <? s) eqn:E; [apply Z.ltb_lt in E|apply Z.ltb_ge in E]|]; split; cbn.
+    + intros x' Hx'. inversion Hx'; subst. exists n. split; [left; reflexivity|exact H1].
+    + intros n' x' s' [->|Hin] Hf.
+      * rewrite H1 in Hf. inversion Hf; subst. split; [discriminate|lia].
+      * destruct (B2 _ _ _ Hin Hf). split; [discriminate|lia].
+    + rewrite Eb. intros x' Hx'. destruct (B1 x' Hx') as (n' & Hin & Hf). exists n'. split; [right; exact Hin|exact Hf].
+    + rewrite Eb. intros n' x' s' [->|Hin] Hf; [|eauto].
+      rewrite H1 in Hf. inversion Hf; subst. split; [discriminate|lia].
+    + intros x' Hx'. inversion Hx'; subst. exists n. split; [left; reflexivity|exact H1].
+    + intros n' x' s' [->|Hin] Hf.
+      * rewrite H1 in Hf. inversion Hf; subst. split; [discriminate|lia].
+      * destruct (B2 _ _ _ Hin Hf) as [Hne _]. exfalso. apply Hne. reflexivity.
+  - (* FinishInf *) split; cbn; auto.
+    + intros x Hx. destruct (B1 x Hx) as (n' & Hin & Hf). exists n'. split; [right; exact Hin|exact Hf].
+    + intros n' x s' [->|Hin] Hf; [congruence|eauto].
+Qed.
+Lemma best_init k : BestInv (init k).
+Proof. split; cbn; [discriminate|intros n x s []]. Qed.
+Theorem reach_best k st : Reach k st -> BestInv st.
+Proof. induction 1; [apply best_init|eapply best_step; eauto]. Qed.
+
 
 (* ---------- termination: a linear measure ---------- *)
 Section Termination.
